@@ -1,17 +1,24 @@
-"""Per-property configuration of bin/check."""
+"""Per-property configuration of bin/check: one file per property under bin/props.d/<ID>.py,
+each defining PROP = {...} with the keys
 
-PROPS = {
-    "C15": {
-        "model": "C15_Blob.Model",
-        "design_ref": "DESIGN.md 7.15",
-        "level_text": "Coq theorems over all chunk lists, sizes, keys and stores: read(write(chunks)) returns exactly the chunks in order with the recorded size/descriptor (for the byte order of chunk numbers the code uses, taken from the source by the translator), refused/interrupted writes are never readable as complete, writes of one key leave every other key's rows untouched; the model is tied to iblobstoragestg by replaying observed scenarios (storage calls, results, read-back digests) inside Coq on every run",
-        "level_note": "trusted: Coq kernel/vm_compute, translator, harness; modelled not verified: the IAppStorage backend (covered by C06), JSON encoding of the state row, io.Reader contract; the chunk payload is abstract (rows are never split or merged, checked by the correspondence)",
-        "properties_file": "theories/Properties/C15.v",
-        "n": {"quick": 90, "thorough": 400},
-        "shards": {"quick": 1, "thorough": 8},
-        "cases_per_file": 12,
-        "rule": "scenario = 1-3 BLOB writes (persistent/temporary keys, sizes around chunk and bucket bounds, reader chunkings one-byte/small/irregular/full, quota size-1/size/size+1, reader error/cancel) + reads of every key, a never-written key and temporary keys around expiry, on mem and bbolt; non-trivial = some write has >1 chunk or a quota/interruption; distinct = backend + per-write (kind,size,chunking,#reads,quota,ending) + read times",
-        "trusted_base": ["modelled not verified: istorage backend below IAppStorage (C06), encoding/json of BLOBState, io.Reader contract"],
-        "assumptions": ["one writer per BLOB key at a time; chunk count and sizes < 2^64"],
-    },
-}
+  model            Coq module (under namespace V) defining `trace`, `agrees`, `satisfies`
+  properties_file  coq/theories/Properties/<ID>.v  (statements only, `exact` proofs, Print Assumptions)
+  n                {"quick": cases, "thorough": cases per shard}
+  shards           {"quick": 1, "thorough": k}
+  cases_per_file   traces per generated coq/run/cases_*.v (keeps each coqc run short)
+  rule             how cases are generated and what makes one non-trivial / distinct (goes to evidence)
+  level_text / level_note / design_ref / technique   MANIFEST fields
+  trusted_base, assumptions, allowed_axioms          evidence fields / accepted stdlib axioms
+  scope, trace_type, agrees, satisfies, case_imports optional overrides for the generated case files
+"""
+import importlib.util
+import os
+
+PROPS = {}
+_d = os.path.join(os.path.dirname(os.path.abspath(__file__)), "props.d")
+for _f in sorted(os.listdir(_d)):
+    if _f.endswith(".py"):
+        _spec = importlib.util.spec_from_file_location("prop_" + _f[:-3], os.path.join(_d, _f))
+        _m = importlib.util.module_from_spec(_spec)
+        _spec.loader.exec_module(_m)
+        PROPS[_f[:-3]] = _m.PROP
